@@ -122,3 +122,43 @@ def designspace_snapshot(ds):
         "formatVersion": getattr(ds, "formatVersion", None),
     }
     return snap
+
+
+# ------------------------------------------------------------------ glyph objects -> spec dicts (input of refmodel.resolve)
+class _SpecPen:
+    def __init__(self):
+        self.contours = []
+        self.components = []
+        self._cur = None
+
+    def beginPath(self, identifier=None, **kw):
+        self._cur = []
+
+    def addPoint(self, pt, segmentType=None, smooth=False, name=None, identifier=None, **kw):
+        self._cur.append((pt[0], pt[1], segmentType))
+
+    def endPath(self):
+        self.contours.append(self._cur)
+        self._cur = None
+
+    def addComponent(self, baseGlyphName, transformation, identifier=None, **kw):
+        self.components.append({"base": baseGlyphName, "t": tuple(transformation)})
+
+
+def glyph_to_spec(glyph):
+    pen = _SpecPen()
+    glyph.drawPoints(pen)
+    return {
+        "name": glyph.name,
+        "width": glyph.width,
+        "height": glyph.height,
+        "unicodes": list(glyph.unicodes),
+        "contours": pen.contours,
+        "components": pen.components,
+        "anchors": [{"name": a.name, "x": a.x, "y": a.y} for a in glyph.anchors],
+        "lib": freeze(dict(glyph.lib)),
+    }
+
+
+def glyphset_to_spec(gs):
+    return {"glyphs": [glyph_to_spec(gs[n]) for n in gs.keys()]}
